@@ -438,13 +438,17 @@ class SynthObject(gpp.UGenParameter, metaclass=MetaSynthObject):
     def _replace_zeroes_with_silence(cls, lst):
         # // This replaces zeroes with audio rate silence.
         # // Sub collections are deep replaced.
+        # // A new list is returned, lst may belong to the caller.
         silence = lne.DC.ar(0)
-        for i, item in enumerate(lst):
+        res = []
+        for item in lst:
             if isinstance(item, (int, float)) and item == 0.0:
-                lst[i] = silence
+                res.append(silence)
             elif isinstance(item, list):
-                lst[i] = cls._replace_zeroes_with_silence(item)
-        return lst
+                res.append(cls._replace_zeroes_with_silence(item))
+            else:
+                res.append(item)
+        return res
 
 
     ### SynthDef binary format ###
